@@ -98,6 +98,9 @@ FIXED = [  # (request, current index, expected physical file or None)
     (b'sub/b.hpp', 1, b'/p/mod/sub/b.hpp'), (b'a.hpp', 1, b'/p/mod/a.hpp'), (b'../mod2/a.hpp', 1, None), (b'../secret.txt', 1, None), (b'../../secret', 1, None), (b'..\\mod2\\a.hpp', 1, None),
     (b'a', 2, b'/p/core/b/a'), (b'../a', 2, b'/p/core/a'), (b'../../secret.txt', 2, None),
     (b'only.hpp', 3, b'/p/alt/only.hpp'), (b'a.hpp', 3, b'/p/mod/a.hpp'), (b'./only.hpp', 3, b'/p/alt/only.hpp'), (b'../secret.txt', 3, None),
+    # absolute physical paths that enter a mapped root and climb out of it again, where the collapsed *virtual* path names an existing file of another root
+    (b'/p/mod/../a', 0, None), (b'/p/mod/sub/../../a', 0, None), (b'/p/mod/sub/../../b/a', 0, None), (b'/p/alt/../a', 0, None), (b'/p/mod/..\\a', 0, None), (b'/p/mod//sub/..//../a', 0, None),
+    (b'/p/alt/../mod/a.hpp', 0, b'/p/mod/a.hpp'), (b'/p/mod/sub/../../../p/core/nosuch/../../secret.txt', 0, None),
     # requests that name a directory (or nothing): not a file, so not found - never a read of the directory
     (b'/x/mod', 0, 'DIR'), (b'/x/mod/', 0, 'DIR'), (b'/x/mod/sub', 0, 'DIR'), (b'', 0, 'DIR'), (b'.', 1, 'DIR'), (b'sub', 1, 'DIR'), (b'/p/mod', 0, 'DIR'), (b'/x', 0, 'DIR'), (b'..', 2, 'DIR'),
 ]
